@@ -174,14 +174,15 @@ theorem checkConsistency_of_not_allSame (s : Sequence) (srs : List Val) (hSR : D
   simp [hSR, h1, hs]
 
 /-- the sample rates agree and a `channels` query raises: False for SequenceConsistencyError (an
-    inconsistent stored subsequence), that exception otherwise -/
+    inconsistent stored subsequence) and for KeyError (an empty one, or one without a sample rate),
+    that exception otherwise -/
 theorem checkConsistency_of_channels_error (s : Sequence) (srs : List Val) (er : Err)
     (hSR : Dict.has s.awgspecs "SR" = true)
     (h1 : (Dict.vals s.data).mapM Entry.getSR = .ok srs) (hs : Element.allSame srs = true)
     (h2 : (Dict.vals s.data).mapM Entry.channels = .error er) :
-    s.checkConsistency = if er = .consistency then .ok false else .error er := by
+    s.checkConsistency = if er = .consistency ∨ er = .key then .ok false else .error er := by
   unfold Sequence.checkConsistency
-  by_cases he : er = .consistency <;> simp [hSR, h1, hs, h2, he]
+  by_cases he : er = .consistency ∨ er = .key <;> simp only [hSR, h1, hs, h2, he, Bool.not_true, Bool.false_eq_true, if_false, if_true]
 
 /-- the sample rates agree and every `channels` query answers: a boolean -/
 theorem checkConsistency_of_channels_ok (s : Sequence) (srs : List Val) (chans : List (List Chan))
@@ -192,9 +193,10 @@ theorem checkConsistency_of_channels_ok (s : Sequence) (srs : List Val) (chans :
   unfold Sequence.checkConsistency
   cases hc : allEqLast (chans.map channelListSorter) <;> simp [hSR, h1, hs, h2, hc]
 
-/-- no stored subsequence's `channels` query raises anything but SequenceConsistencyError -/
+/-- no stored subsequence's `channels` query raises anything but SequenceConsistencyError or KeyError -/
 def NoHardError (s : Sequence) : Prop :=
-  ∀ x ∈ s.data, ∀ (sub : SubSeq) (er : Err), x.2 = .sub sub → sub.channels = .error er → er = .consistency
+  ∀ x ∈ s.data, ∀ (sub : SubSeq) (er : Err), x.2 = .sub sub → sub.channels = .error er →
+    er = .consistency ∨ er = .key
 
 /-- every stored subsequence has a sample rate and at least one element -/
 def SubsSound (s : Sequence) : Prop :=
@@ -202,12 +204,12 @@ def SubsSound (s : Sequence) : Prop :=
 
 /-- on a validated store with a sample rate set: `checkConsistency` returns a boolean, or the
     sample rates agree and it raises what a stored subsequence's `channels` query raises - which is
-    then not SequenceConsistencyError -/
+    then neither SequenceConsistencyError nor KeyError -/
 theorem checkConsistency_cases {s : Sequence} (hv : G11.InnerValidated s)
     (hSR : Dict.has s.awgspecs "SR" = true) :
     (∃ b, s.checkConsistency = .ok b) ∨
       (SameSR s ∧ ∃ x ∈ s.data, ∃ (sub : SubSeq) (er : Err), x.2 = .sub sub ∧ sub.channels = .error er ∧
-        er ≠ .consistency ∧ s.checkConsistency = .error er) := by
+        ¬ (er = .consistency ∨ er = .key) ∧ s.checkConsistency = .error er) := by
   obtain ⟨srs, h1⟩ := G3.mapM_ok_of_forall_ex Entry.getSR (Dict.vals s.data) (fun en hen => by
     obtain ⟨x, hx, rfl⟩ := List.mem_map.mp hen
     exact getSR_ok_of_validated hv x hx)
@@ -216,7 +218,7 @@ theorem checkConsistency_cases {s : Sequence} (hv : G11.InnerValidated s)
     | ok chans => exact .inl ⟨_, checkConsistency_of_channels_ok s srs chans hSR h1 hs h2⟩
     | error er =>
       have hcc := checkConsistency_of_channels_error s srs er hSR h1 hs h2
-      by_cases he : er = .consistency
+      by_cases he : er = .consistency ∨ er = .key
       · left
         rw [if_pos he] at hcc
         exact ⟨false, hcc⟩
@@ -233,7 +235,7 @@ theorem checkConsistency_cases {s : Sequence} (hv : G11.InnerValidated s)
           exact ⟨x, hx, sub, er, hx2, herr, he, hcc⟩
   · exact .inl ⟨false, checkConsistency_of_not_allSame s srs hSR h1 (by simpa using hs)⟩
 
-/-- it never raises when no stored subsequence raises anything but SequenceConsistencyError -/
+/-- it never raises when no stored subsequence raises anything but SequenceConsistencyError / KeyError -/
 theorem checkConsistency_ok_of_noHardError {s : Sequence} (hv : G11.InnerValidated s)
     (hSR : Dict.has s.awgspecs "SR" = true) (ha : NoHardError s) : ∃ b, s.checkConsistency = .ok b := by
   rcases checkConsistency_cases hv hSR with h | ⟨_, x, hx, sub, er, hx2, herr, hne, _⟩
@@ -315,22 +317,30 @@ theorem subChannels_error_cases (sub : SubSeq) (hval : ∀ y ∈ sub.data, ∃ m
                   rw [← Dict.get?_isSome_iff, hg] at h1
                   cases h1
 
-/-- stored subsequences with a sample rate and at least one element (and validated elements) raise
-    nothing but SequenceConsistencyError -/
-theorem noHardError_of_subsSound {s : Sequence} (hv : G11.InnerValidated s) (ha : SubsSound s) : NoHardError s := by
+/-- stored subsequences with validated elements raise nothing but SequenceConsistencyError or
+    KeyError (D28: no side condition on the subsequences is needed any more) -/
+theorem noHardError_of_validated {s : Sequence} (hv : G11.InnerValidated s) : NoHardError s := by
   intro x hx sub er hx2 herr
-  rcases subChannels_error_cases sub ((hv x hx).2 sub hx2) er herr with h | ⟨_, h | h⟩
-  · exact h
-  · rw [(ha x hx sub hx2).1] at h; cases h
-  · exact absurd h (ha x hx sub hx2).2
+  rcases subChannels_error_cases sub ((hv x hx).2 sub hx2) er herr with h | ⟨h, _⟩
+  · exact .inl h
+  · exact .inr h
+
+theorem noHardError_of_subsSound {s : Sequence} (hv : G11.InnerValidated s) (_ha : SubsSound s) : NoHardError s :=
+  noHardError_of_validated hv
+
+/-- a validated store with a sample rate: `checkConsistency` answers a boolean - it never raises -/
+theorem checkConsistency_ok_of_validated {s : Sequence} (hv : G11.InnerValidated s)
+    (hSR : Dict.has s.awgspecs "SR" = true) : ∃ b, s.checkConsistency = .ok b :=
+  checkConsistency_ok_of_noHardError hv hSR (noHardError_of_validated hv)
 
 /-- exactly when it raises: the sample rates agree (so the channel queries are reached) and the
     first `channels` query that fails (in store order) raises something other than
-    SequenceConsistencyError -/
+    SequenceConsistencyError / KeyError - which a validated store never does
+    (`checkConsistency_ok_of_validated`), so the right-hand side is in fact unsatisfiable there -/
 theorem checkConsistency_raises_iff {s : Sequence} (hv : G11.InnerValidated s)
     (hSR : Dict.has s.awgspecs "SR" = true) :
     (∃ er, s.checkConsistency = .error er) ↔
-      SameSR s ∧ ∃ er, er ≠ .consistency ∧ (Dict.vals s.data).mapM Entry.channels = .error er := by
+      SameSR s ∧ ∃ er, ¬ (er = .consistency ∨ er = .key) ∧ (Dict.vals s.data).mapM Entry.channels = .error er := by
   obtain ⟨srs, h1⟩ := G3.mapM_ok_of_forall_ex Entry.getSR (Dict.vals s.data) (fun en hen => by
     obtain ⟨x, hx, rfl⟩ := List.mem_map.mp hen
     exact getSR_ok_of_validated hv x hx)
@@ -343,7 +353,7 @@ theorem checkConsistency_raises_iff {s : Sequence} (hv : G11.InnerValidated s)
       | ok chans => rw [checkConsistency_of_channels_ok s srs chans hSR h1 hs h2] at he; cases he
       | error er' =>
         rw [checkConsistency_of_channels_error s srs er' hSR h1 hs h2] at he
-        by_cases hc : er' = .consistency
+        by_cases hc : er' = .consistency ∨ er' = .key
         · rw [if_pos hc] at he; cases he
         · exact ⟨er', hc, rfl⟩
     · rw [checkConsistency_of_not_allSame s srs hSR h1 (by simpa using hs)] at he; cases he
